@@ -15,6 +15,8 @@ CallsTriple  == <<E("A", "a"), E("A", "a"), E("A", "a")>>
 \* 4 distinct subjects
 CallsFour    == <<E("A", "a"), E("A", "b"), E("A", "c"), E("A", "d")>>
 CallsFive    == <<E("A", "a"), E("A", "b"), E("A", "c"), E("A", "a"), St("A")>>
+\* two evaluations and two statistics calls (used with SplitWrites: rows go out in two pieces)
+CallsSplit   == <<E("A", "a"), E("A", "b"), St("A"), St("A")>>
 CallsTwoStat == <<E("A", "a"), St("A"), E("A", "b")>>
 CallsTwo     == <<E("A", "a"), E("A", "b")>>
 CallsThree   == <<E("A", "a"), E("A", "b"), E("A", "c")>>
